@@ -21,7 +21,7 @@ def _funcs():
     return [i.loads, i._iso8583_to_dict, i._iso8583_to_field, i._string_to_pytype, i._get_field_length, i._pds_to_dict, i._icc_to_dict]
 
 
-def framing(pick, enc, hexbm, nmax, sub=True, bit1=True, cfgs=None):
+def framing(pick, enc, hexbm, nmax, sub=True, bit1=True, cfgs=None, builder=None):
     cfgs_given = cfgs
 
     def h():
@@ -31,7 +31,10 @@ def framing(pick, enc, hexbm, nmax, sub=True, bit1=True, cfgs=None):
         rope.ASCII_ELEMENTWISE[0] = (enc == 'ascii')
         custom = cfgs_given
         cfgs = custom or bit_config()
-        msg, data, src = abstract_message(bits, enc, hexbm, nmax, bit1=bit1)
+        if builder is not None:
+            msg, data = builder(bits, enc, hexbm)
+        else:
+            msg, data, src = abstract_message(bits, enc, hexbm, nmax, bit1=bit1)
 
         def rp():
             return {'kind': 'loads', 'args': {'data': witness_bytes(msg), 'enc': enc, 'hexbm': hexbm, 'cfg': custom}}
@@ -77,6 +80,25 @@ def framing(pick, enc, hexbm, nmax, sub=True, bit1=True, cfgs=None):
                 require(s_not(all_numerals_plain()), 'decoder refused a well-framed message: %s' % (err.args[:1],), key='C08/too-strict', replay=rp)
         return {'sample': {'bits': bits, 'len': ev(rlen(data)), 'accepted': d is not None, 'strict': rej or 'accept'}, 'replay': rp()}
     return h
+
+
+MB_TEXTS = ['\u00e9', 'a\u00e91', '\u20acuro', '\u65e5\u672c\u8a9e', 'x\U0001f600y', 'caf\u00e9 12 \u00f1', 'plain']
+
+
+def multibyte(bits, enc, hexbm):
+    """variable elements whose content has multi-byte characters (concrete, from a family) under a declared length that is symbolic:
+    the declared number counts BYTES, so the one well-framed reading has it equal to the encoded length"""
+    cfgs = bit_config()
+    parts = []
+    for i, b in enumerate(bits):
+        body = choose('text%d' % i, MB_TEXTS).encode(enc)
+        n = sym_int('declared%d' % i, 0, len(body) + 2)
+        parts += [mk('t', [Num(n, flen(cfgs[str(b)]))]).encode('ascii'), body]
+    data = cat('b', *parts)
+    bm = bitmap_bytes(list(bits))
+    if hexbm:
+        bm = binascii.hexlify(bm)
+    return cat('b', '1240'.encode(enc), bm, data), data
 
 
 def short_header(enc, hexbm):
@@ -127,6 +149,8 @@ def obligations(tier):
         obs.append(Ob('short-header/%s/%s' % (enc, 'hex' if hexbm else 'bin'), short_header(enc, hexbm), 300,
                       'every input of 0..%d bytes (shorter than MTI + bitmap), arbitrary content' % ((36 if hexbm else 20) - 1), _funcs))
     upairs = [[3, 7], [7, 14], [2, 3], [2, 100], [4, 38], [3, 7, 14]]
+    obs.append(Ob('multibyte/utf-8', framing(lambda: choose('bits', [[63], [72], [100], [43]]), 'utf-8', False, 40, sub=False, builder=multibyte), 600,
+                  'multi-byte codec: variable elements with concrete non-ASCII content from a family, every declared length 0..bytes+2 (lengths count bytes)', _funcs))
     obs.append(Ob('unordered-config/latin_1', framing(lambda: choose('bits', upairs), 'latin_1', False, 22, sub=False, cfgs=UNORDERED), 600,
                   'caller-supplied configuration whose keys are not in numeric order: element groups %s, data 0..22' % upairs, _funcs))
     obs.append(Ob('bit1-clear-single/latin_1', framing(lambda: choose('bits', [[9], [33], [41], [49], [73], [24], [2]]), 'latin_1', False, 14, sub=False, bit1=False), 600,
